@@ -22,6 +22,7 @@ import (
 	"fmt"
 	"math"
 	"os"
+	"path/filepath"
 	"sort"
 	"strconv"
 	"strings"
@@ -275,6 +276,12 @@ func GetFinalTagsTreeDir(mid string, suffix uint64) string {
 	return baseDir
 }
 
+// A tags tree is stored in a file named after its tag key; a key that contains a
+// path separator or is a dot directory would name a file outside the tags tree directory.
+func IsTagKeyValidFileName(tagKey string) bool {
+	return tagKey == filepath.Base(tagKey) && tagKey != "." && tagKey != ".."
+}
+
 func getTagsTreeFileName(key string, ttBase string) string {
 	var sb strings.Builder
 	sb.WriteString(ttBase)
@@ -284,6 +291,11 @@ func getTagsTreeFileName(key string, ttBase string) string {
 }
 
 func (tt *TagTree) flushSingleTagsTree(tagKey string, tagsTreeBase string) error {
+	// The tag key becomes a file name in the tags tree directory, so it must be a single path element
+	if !IsTagKeyValidFileName(tagKey) {
+		return fmt.Errorf("TagTree.flushSingleTagsTree: tag key %q cannot be used as a file name", tagKey)
+	}
+
 	tt.rwLock.Lock()
 	defer tt.rwLock.Unlock()
 	err := createTagsTreeDirectory(tagsTreeBase)
